@@ -421,6 +421,15 @@ func getTcbInfo(fmspc string, getter trust.HTTPSGetter, collateral *Collateral) 
 			Msg: err.Error(),
 		}
 	}
+	// The values that drive verification must be exactly the signed ones: decode them from the raw
+	// member the signature covers, not from the whole (partly unsigned) response body.
+	var signedTcbInfo pcs.TcbInfo
+	if err := json.Unmarshal(tcbInfoRawBody, &signedTcbInfo); err != nil {
+		return &trust.AttestationRecreationErr{
+			Msg: fmt.Sprintf("unable to unmarshal signed tcbInfo: %v", err),
+		}
+	}
+	collateral.TdxTcbInfo.TcbInfo = signedTcbInfo
 	collateral.TcbInfoBody = tcbInfoRawBody
 	return nil
 }
@@ -456,6 +465,14 @@ func getQeIdentity(getter trust.HTTPSGetter, collateral *Collateral) error {
 			Msg: err.Error(),
 		}
 	}
+	// Same as for tcbInfo: only the signed member may supply the values.
+	var signedEnclaveIdentity pcs.EnclaveIdentity
+	if err := json.Unmarshal(qeIdentityRawBody, &signedEnclaveIdentity); err != nil {
+		return &trust.AttestationRecreationErr{
+			Msg: fmt.Sprintf("unable to unmarshal signed enclaveIdentity: %v", err),
+		}
+	}
+	collateral.QeIdentity.EnclaveIdentity = signedEnclaveIdentity
 	collateral.EnclaveIdentityBody = qeIdentityRawBody
 	return nil
 }
